@@ -18,8 +18,9 @@ PROP = {
                   "answers, 'A'/'AAAA'/self exceptions, CNAME chains and cycles of length 1-7 with exact and "
                   "wildcard links, duplicates, upper-case patterns) and related questions (names equal to / "
                   "under / above patterns, case variants, A/AAAA/other types) are looked up through "
-                  "DNSFilter.CheckHost in up to three orders of the table (built from the configuration and "
-                  "through POST /control/rewrite/add) and compared with a reference resolver: exact equality "
+                  "DNSFilter.CheckHost in up to three orders of the table (built from the configuration, "
+                  "through POST /control/rewrite/add, by editing placeholder entries of other kinds through PUT "
+                  "/control/rewrite/update, and with junk entries removed through POST /control/rewrite/delete) and compared with a reference resolver: exact equality "
                   "where the table is unambiguous for the question, the stated validity predicates otherwise; "
                   "every order must give the same result; each call runs under a watchdog (10 s of CPU time of the "
                   "process) and a panic trap. "
